@@ -321,7 +321,11 @@ def confirm_failures(report, native_confirm=None):
         rc2, out2, dt2 = common.run(cmd, cwd=crate.dir, env=common.base_env(), timeout=900)
         reproduced = ("test result: FAILED" in out2) and (tests[0] in out2)
         report.time_engine("native_replay", time.time() - t0)
-        m = re.search(r"(/// Test generated for harness.*?\n    \}\n)", src, re.S)
+        m = None
+        for mm in re.finditer(r"(/// Test generated for harness.*?\n    \}\n)", src, re.S):
+            if tests[0] in mm.group(1):
+                m = mm
+                break
         art = {
             "engine": "kani concrete playback", "property": report.prop, "prelude": crate.prelude, "astro": crate.astro,
             "harness": h.name, "crate": crate.name, "backend": crate.backend,
